@@ -554,7 +554,8 @@ func redactPipelineStage(stage interface{}, redactFieldNames bool, keyPath []str
 							isSelectivelyRedactable := isRedactableFieldPatternInArray(subVTyped)
 							newSubMap.Set(redactedSubK, redactArrayValues(subVTyped, redactFieldNames, inSearchStage, isSelectivelyRedactable, append(newKeyPath, subK)))
 						default:
-							newSubMap.Set(redactedSubK, redactScalarValue([]string{k, subK}, subV, inSearchStage, false))
+							// the whole path, so that a --redactFieldsRegexp match on an enclosing field name is seen
+							newSubMap.Set(redactedSubK, redactScalarValue(append(slices.Clone(newKeyPath), subK), subV, inSearchStage, false))
 						}
 					}
 					newMap.Set(redactedKey, newSubMap)
